@@ -629,6 +629,73 @@ func runC02(r *Run) {
 	r.Rule("R9", "PATH.params-authority: the message handlers of x/evm and of Haqq's x/bank wrapper whose request carries an Authority field (MsgUpdateParams — the EVM denomination, the active precompiles; bank send-enabled) write module state only where that field equals the module authority: the EVM denomination that Commit mints and burns is not changeable by an ordinary signer")
 	r.Floor("R9", "authority-guarded message handlers (x/evm, x/bank)", checkAuthorityGuards(r, "R9", "x/evm/keeper", "x/bank/keeper"), 2)
 
+	// R3 (premise, continued): the dirty set is a reference count per address
+	{
+		isDirties := func(v ssa.Value) bool {
+			u, ok := v.(*ssa.UnOp)
+			if !ok || u.Op != token.MUL {
+				return false
+			}
+			_, f, ok2 := fieldOfAddr(u.X)
+			return ok2 && f == "dirties"
+		}
+		lookupOfDirties := func(v ssa.Value) bool {
+			v = stripValue(v)
+			if ex, ok := v.(*ssa.Extract); ok {
+				v = ex.Tuple
+			}
+			lk, ok := v.(*ssa.Lookup)
+			return ok && isDirties(lk.X)
+		}
+		okApp, okRev := false, false
+		if ap, ok := P.FnOK("(*x/evm/statedb.journal).append"); ok {
+			eachInstr(ap, func(in ssa.Instruction) {
+				if mu, ok := in.(*ssa.MapUpdate); ok && isDirties(mu.Map) {
+					if bo, ok := stripValue(mu.Value).(*ssa.BinOp); ok && bo.Op == token.ADD {
+						if c, isC := constInt(bo.Y); isC && c == 1 && lookupOfDirties(bo.X) {
+							okApp = true
+						}
+					}
+				}
+			})
+		}
+		if rv, ok := P.FnOK("(*x/evm/statedb.journal).Revert"); ok {
+			dec := false
+			eachInstr(rv, func(in ssa.Instruction) {
+				if mu, ok := in.(*ssa.MapUpdate); ok && isDirties(mu.Map) {
+					if bo, ok := stripValue(mu.Value).(*ssa.BinOp); ok && bo.Op == token.SUB {
+						if c, isC := constInt(bo.Y); isC && c == 1 && lookupOfDirties(bo.X) {
+							dec = true
+						}
+					}
+				}
+			})
+			// delete(dirties, addr) only over the edge on which the counter is zero
+			zero, _ := condEdges(rv, func(x, y ssa.Value) bool {
+				c, isC := constInt(y)
+				return isC && c == 0 && lookupOfDirties(x)
+			})
+			isDel := func(in ssa.Instruction) bool {
+				c, ok := in.(*ssa.Call)
+				if !ok {
+					return false
+				}
+				b, ok := c.Call.Value.(*ssa.Builtin)
+				return ok && b.Name() == "delete" && len(c.Call.Args) > 0 && isDirties(c.Call.Args[0])
+			}
+			w := PathQuery{Fn: rv, Target: isDel, DelEdge: edgeSet(zero)}.Search()
+			hasDel := false
+			eachInstr(rv, func(in ssa.Instruction) {
+				if isDel(in) {
+					hasDel = true
+				}
+			})
+			okRev = dec && hasDel && len(zero) > 0 && w == nil
+		}
+		r.Check(okApp && okRev, "R3", "(*x/evm/statedb.journal)#dirty-reference-count", "", "append: dirties[addr]++ ; Revert: dirties[addr]-- and delete exactly at zero",
+			fmt.Sprintf("the journal's dirty set is no longer a per-address reference count (append increments: %v; Revert decrements and deletes only at zero: %v): an account dirtied in an outer frame and touched again in a reverted inner frame drops out of the dirty set, so Commit skips it — its debit or credit is never written (mint or burn)", okApp, okRev))
+	}
+
 	// R7: an account object that replaces another inherits its balance
 	r.Rule("R7", "PATH.create-carries-balance: StateDB.CreateAccount (CREATE/CREATE2 onto an address that already has an account object or a bank balance) sets the new object's balance from the previous object's balance on every path on which createObject returned a previous object — whatever the previous object's journal state; the balance cached in an object is what Commit writes, so an object that starts at zero burns the address's coins")
 	if ca, ok := P.FnOK("(*x/evm/statedb.StateDB).CreateAccount"); ok {
